@@ -461,7 +461,7 @@ def _unit(prog, t, depth=0):
     if depth > 30:
         return "n"
     if t[0] == "const" and isinstance(t[2], int):
-        return "8" if t[2] == 8 else "bytes"
+        return "8" if t[2] == 8 else ("n" if t[2] in (0, 1) else "bytes")
     if t[0] == "call":
         last = t[1].rsplit("::", 1)[-1].split("<")[0]
         if last in ("len",):
@@ -490,7 +490,9 @@ def _unit(prog, t, depth=0):
                 return "bytes"
             return "n" if a == b else a
     if t[0] == "phi":
-        us = {_unit(prog, a, depth + 1) for a in t[1]}
+        us = {_unit(prog, a, depth + 1) for a in t[1]} - {"n"}
+        if us == {"bytes", "bits"}:
+            raise _UnitMismatch("alternatives in bytes and in bits: %s" % tree_str(strip_deep(t))[:120])
         return us.pop() if len(us) == 1 else "n"
     return "n"
 
@@ -510,12 +512,16 @@ def packet_capacity_units(ctx, prog, rule):
         while v[0] == "cast":
             v = strip(v[2])
         if not (v[0] == "binop" and v[1] == "Div"):
-            continue
+            # the same quotient as `available.checked_div(size)` matched for None / Some
+            cd = [x for x in leaves(v) if x[0] == "call" and x[1].rsplit("::", 1)[-1] == "checked_div" and len(x[2]) == 2]
+            if not cd:
+                continue
+            v = ("binop", "Div", cd[0][2][0], cd[0][2][1])
         try:
             un, ud = _unit(prog, v[2]), _unit(prog, v[3])
-            okv = un == ud == "bits" or un == ud == "bytes"
+            okv = True if (un == ud and un in ("bits", "bytes")) else (None if "n" in (un, ud) else False)
             desc = "capacity %s / point size %s" % (un, ud)
         except _UnitMismatch as e:
             okv, desc = False, str(e)
-        verdict = okv if verdict is None else (verdict and okv)
+        verdict = okv if verdict is None else (False if False in (verdict, okv) else (None if None in (verdict, okv) else True))
     ctx.ob(rule, "capacity-units/get_max_packet_points", verdict, "get_max_packet_points: %s (must be bits / bits)" % desc)
